@@ -255,9 +255,16 @@ package dnsdata
 // ---- C01: the head of every stored record (binary encoders at token level) ------------------------------------
 // value = BE16(type) marker [location] BE32(ttl) 8 zero bytes ...; marker: '=' / '*' (wildcard) without a location,
 // '>' / '+' (wildcard) followed by the two location bytes with one; a location is two bytes that are not both zero.
+// (one contract for io.Writer.Write in every package: besides the token it maintains the hasher trace of package cdb)
+//@ ghostvar hN seq
+//@ ghostvar hL (Array Int Str)
+//@ ghostvar teeOf seq
 //@ extern io Writer.Write
-//@ updates ntok, tokK, tokB
-//@ ensures ntok == old(ntok) + 1 && tokK == upd(old(tokK), old(ntok), 2) && tokB == upd(old(tokB), old(ntok), p)
+//@ updates hN, hL, ntok, tokK, tokB
+//@ ensures[tee] teeOf[recv] != 0 && err == nil ==> hN == upd(old(hN), teeOf[recv], old(hN)[teeOf[recv]] + 1) && hL == upd(old(hL), teeOf[recv], string(p))
+//@ ensures[other] teeOf[recv] == 0 ==> hN == old(hN) && hL == old(hL)
+//@ ensures[hasher] teeOf[recv] == recv ==> err == nil
+//@ ensures[token] ntok == old(ntok) + 1 && tokK == upd(old(tokK), old(ntok), 2) && tokB == upd(old(tokB), old(ntok), p)
 //@ spec tbe16(i int, v int) bool = tokK[i] == 11 && tokN[i] == v
 //@ spec tbe32(i int, v int) bool = tokK[i] == 12 && tokN[i] == v
 //@ spec tbyte1(i int, c int) bool = tokK[i] == 2 && len(tokB[i]) == 1 && tokB[i][0] == c
